@@ -4,9 +4,10 @@ import Sop.Driver.Util
 
     case n <kind> <place> c1 c2 c3     kind: bytes|map|ints|ptr (reference kinds) | string|struct (value kinds);
                                        place: inNode | vnf; keys 1,2,3 hold contents c1,c2,c3
-    begin | commit | rollback | clear | mutate x | update k v   -> ok
-    read k                                                     -> <content> | none
--/
+    begin | commit | rollback | clear | evict1 | evicth | evict2 | mutate x | update k v   -> ok
+    read k | cold k                                            -> <content> | none
+A `read`/`update` that loads the node is annotated with the lookup level that served it (`%fill:l1|l2|l2stale|blob`,
+statistics only). -/
 namespace Sop.Driver.C38
 open Sop.Driver Sop.Alias
 
@@ -28,17 +29,34 @@ def showOut : Option Nat → String
   | none => "none"
 
 def step (d : DSt) (ws : List String) : DSt × String :=
+  let fill : String :=
+    match d.s.txn with
+    | some t =>
+      if t.node.isSome then "" else
+      match d.s.l1, d.s.l2 with
+      | some (_, true), _ => "\t%fill:l1"
+      | _, some (_, true) => "\t%fill:l2"
+      | _, some (_, false) => "\t%fill:l2stale"
+      | _, none => "\t%fill:blob"
+    | none => ""
   let go (op : Op) (isRead : Bool) : DSt × String :=
     let (s', o) := d.s.apply op
     ({ d with s := s' }, if isRead then showOut o else "ok")
+  let goLoad (op : Op) (isRead : Bool) : DSt × String :=
+    let (d', out) := go op isRead
+    (d', out ++ fill)
   match ws with
   | ["begin"] => go .begin false
   | ["commit"] => go .commit false
   | ["rollback"] => go .rollback false
   | ["clear"] => go .clear false
+  | ["evict1"] => go .evict1 false
+  | ["evicth"] => go .evicth false
+  | ["evict2"] => go .evict2 false
+  | ["cold", k] => match k.toNat? with | some k => go (.cold k) true | none => (d, "bad-op")
   | ["mutate", x] => match x.toNat? with | some x => go (.mutate x) false | none => (d, "bad-op")
-  | ["update", k, v] => match k.toNat?, v.toNat? with | some k, some v => go (.update k v) false | _, _ => (d, "bad-op")
-  | ["read", k] => match k.toNat? with | some k => go (.read k d.kind) true | none => (d, "bad-op")
+  | ["update", k, v] => match k.toNat?, v.toNat? with | some k, some v => (if d.s.vnf then go else goLoad) (.update k v) false | _, _ => (d, "bad-op")
+  | ["read", k] => match k.toNat? with | some k => goLoad (.read k d.kind) true | none => (d, "bad-op")
   | _ => (d, "bad-op")
 
 def run : IO Unit := runLoop reset step
